@@ -371,7 +371,15 @@ func (a *RangeLen) String() string {
 }
 
 func (a *RangeLen) Echo() string {
-	return a.E.Echo() + "[" + a.From.Echo() + "::" + a.Len.Echo() + "]"
+	s := a.E.Echo() + "["
+	if a.From != nil {
+		s += a.From.Echo()
+	}
+	s += "::"
+	if a.Len != nil {
+		s += a.Len.Echo()
+	}
+	return s + "]"
 }
 
 func (a *RangeLen) Children(fn func(Node) Node) {
